@@ -36,6 +36,8 @@ func (c *ocodeClient) Emit(line string) error {
 	log.Printf("debug: [ocode_client] emit %s\n", line)
 	ocode, err := parseLineToOcode(line)
 	if err != nil {
+		// no caller looks at the result: report here, or the statement vanishes without a trace
+		log.Printf("error: cannot assemble '%s': %v", line, err)
 		return err
 	}
 	ocode.BitMode = c.bitMode // the mode in force now, not the one in force when code is generated
